@@ -208,6 +208,19 @@ def run_property(spec, tier, seed, extract=None):
                         else:
                             hits.append(hit)
 
+    # further searches of the property (other builds of the harness, other observers): fn(tier, seed, tag_hist) -> [Hit] --------
+    for fn in spec.statics:
+        if hrc != 0:
+            break
+        for hit in fn(tier, seed, tag_hist):
+            evaluations += 1
+            if hit is None:
+                continue
+            if hit.fp in known_fps:
+                known_seen.add(hit.fp)
+            else:
+                hits.append(hit)
+
     # shrink + record disagreements ------------------------------------------------------
     seen_dis = set()
     for (es, h, d, io, mo) in disagreements[:3]:
